@@ -11,11 +11,13 @@ EXPLANATION = ("Structural necessary conditions of C21, decided over the MIR pat
                "loop it was in: a failure that is skipped leaves the file `loaded` with different rules; (R2) the loader "
                "hands every rule text the reader returned, in order, to the rule parser and adds the parsed rule to the "
                "knowledge base it was given; (R3) the reader appends every line it keeps, in order and once, to the text it "
-               "hands to the rule splitter. Decides these shapes, not the equality of the two ways of loading on every "
+               "hands to the rule splitter; (R4) the splitter does not return Ok without looking whether text is left over (a last "
+               "rule without its period). Decides these shapes, not the equality of the two ways of loading on every "
                "text: comment stripping, line joining and the splitting at periods are value-level and not decided.")
 RULES = ("R1 no failure of a fallible step is skipped in the loader family (Err / check message => error return, no further "
          "loop trip); R2 loader wiring: reader(file) -> for each text in order -> rule parser -> insertion into the given "
-         "knowledge base; R3 reader wiring: every kept line appended once, in order, to the text given to the splitter")
+         "knowledge base; R3 reader wiring: every kept line appended once, in order, to the text given to the splitter; R4 the "
+         "splitter looks whether the text it is still collecting is empty before it returns Ok")
 TRUSTED = ["rustc nightly MIR construction", "bounded unrolling: each loop body is walked up to 2 times per path"]
 
 KB_TY = "HashMap<std::string::String, std::vec::Vec<rule::Rule>>"
@@ -41,21 +43,29 @@ def run(ctx):
 
     def reads_lines(b):
         return any("::lines" in (t["callee"].get("path") or "") for p_ in cg.reach([b.path]) if p_ in cg.nodes for i, t in cg.nodes[p_].calls())
-    L = None
+    Ls = []
     for b in bodies:
         if b.is_pub and b.mir["arg_count"] == 2 and b.locals[1]["s"].replace(" ", "").startswith("&mut") and \
                 KB_TY.replace(" ", "") in b.locals[1]["s"].replace(" ", "") and b.locals[2]["s"] == "&str" and reads_lines(b):
-            L = b
-    if L is None:
-        ctx.missing("anchors", "file loader (pub fn(&mut KnowledgeBase, &str) that reads the lines of a file)")
+            Ls.append(b)
+    if not Ls:
+        ctx.missing("anchors", "loader (pub fn(&mut KnowledgeBase, &str) that reads the lines of a file or text)")
         return
-    ctx.fn(L)
-    lfile = L.j.get("file")
-    fam = [cg.nodes[p] for p in cg.reach([L.path]) if p in cg.nodes and cg.nodes[p].kind in ("Fn", "AssocFn") and cg.nodes[p].j.get("file") == lfile]
+    L = Ls[0]
+    fam, seen_f = [], set()
+    for L_ in Ls:
+        ctx.fn(L_)
+        lfile = L_.j.get("file")
+        for p in cg.reach([L_.path]):
+            if p in cg.nodes and p not in seen_f and cg.nodes[p].kind in ("Fn", "AssocFn") and cg.nodes[p].j.get("file") == lfile:
+                seen_f.add(p)
+                fam.append(cg.nodes[p])
     ctx.extra["loader_family"] = sorted(b.npath for b in fam)
     ctx.floor("R1", len(fam), 3, "functions of the loader's source file reached from the loader")
     fam_paths = {b.path for b in fam}
-    reporters = {b.path for b in fam if "Option<std::string::String>" in b.locals[0]["s"].replace(" ", "") and b.path != L.path}
+    loader_paths = {x.path for x in Ls}
+    reporters = {b.path for b in fam if "Option<std::string::String>" in b.locals[0]["s"].replace(" ", "") and b.path not in loader_paths and
+                 not (b.mir["arg_count"] >= 1 and KB_TY.replace(" ", "") in b.locals[1]["s"].replace(" ", ""))}
     # ---- R1 ----------------------------------------------------------------------------------------------------------------
     n_fail = 0
     paths_of = {}
@@ -115,85 +125,169 @@ def run(ctx):
                "%d failing outcome(s) on the paths of this function, each followed by an error return" % n)
     ctx.floor("R1/failures", n_fail, 4, "failing outcomes of fallible steps looked at in the loader family")
     # ---- R2 loader wiring --------------------------------------------------------------------------------------------------
-    kbp = ("param", 1, L.locals[1].get("name") or "")
-    fnp = ("param", 2, L.locals[2].get("name") or "")
-    ok2, why2, n2 = True, "", 0
-    for p in paths_of.get(L.path, []):
-        if p.end != "return":
-            continue
-        parses = [e for e in p.events if e["k"] == "call" and e["callee"] in cg.nodes and "rule::Rule" in cg.nodes[e["callee"]].locals[0]["s"] and
-                  "Result<" in cg.nodes[e["callee"]].locals[0]["s"]]
-        for e in parses:
-            n2 += 1
-            a = strip(e["args"][0])
-            pos = None
-            found = []
-            mentions(a, lambda t: found.append(t) or False if iters.position(t) is not None else False)
-            if iters.position(a) is not None:
-                found.append(a)
-            for t in found:
-                pos = iters.position(t)
-                if pos is not None:
-                    break
-            if pos is None:
-                ok2, why2 = False, "the text parsed at line %d (%s) is not an element of the list the reader returned" % (e["line"], show(a)[:50])
-                continue
-            coll, key = pos
-            src = []
-            mentions(coll, lambda t: src.append(t) or False if (t[0] == "call" and t[1] in fam_paths) else False)
-            if not (src and any(strip(x) == fnp or mentions(x, lambda y: y == fnp) for s_ in src for x in s_[2])):
-                ok2, why2 = False, "the texts parsed come from %s, not from the reader called with the loader's file name" % show(coll)[:60]
-            if key[0] != "step" or key[2] != 0 or mentions(coll, lambda t: t[0] == "call" and t[1].endswith("::rev")) or \
-                    mentions(key[1], lambda t: t[0] == "call" and (t[1].endswith("::rev") or "Rev<" in t[1])):
-                ok2, why2 = False, "the rule texts are not visited first to last, one by one (%s)" % str(key)[:50]
-            # the parsed rule reaches the knowledge base handed in
-            res = strip(e["result"]) if e.get("result") is not None else None
-            okp = [x for x in p.decisions if strip(x[0]) == ("variant", res) and x[1] == "Ok"]
-            if okp:
-                ins = [x for x in p.events if x["k"] == "call" and x is not e and any(strip(y) == kbp for y in x["args"]) and
-                       any(mentions(y, lambda t: t == res) for y in x["args"]) and p.events.index(x) > p.events.index(e)]
-                if len(ins) != 1:
-                    ok2, why2 = False, "a rule parsed at line %d is added to the knowledge base %d time(s) on some path" % (e["line"], len(ins))
-    ctx.ob("R2", "loader-wiring", ok2 and n2 > 0, ctx.where(L), why2 or
-           "every text of reader(file name), first to last, goes to the rule parser and its rule into the given knowledge base (%d)" % n2)
+    import inline
+    pol_all = inline.helpers(prog)
+
+    def pol(name):
+        """Walk into private helpers that work on the knowledge base (the parse-and-add loop moved out of a loader); the
+        text scanners stay calls."""
+        hb = pol_all(name)
+        if hb is not None and any(KB_TY.replace(" ", "") in hb.locals[j]["s"].replace(" ", "") for j in range(1, hb.mir["arg_count"] + 1)):
+            return hb
+        return None
+    pol.closure = pol_all.closure
+    for L in Ls:
+      kbp = ("param", 1, L.locals[1].get("name") or "")
+      fnp = ("param", 2, L.locals[2].get("name") or "")
+      ok2, why2, n2 = True, "", 0
+      try:
+          lps = Walker(L, max_visits=2, max_paths=200000, inline=pol).paths()
+      except TooManyPaths:
+          lps = []
+      ctx.stats["paths_walked"] += len(lps)
+      for p in lps:
+          if p.end != "return":
+              continue
+          parses = [e for e in p.events if e["k"] == "call" and e["callee"] in cg.nodes and "rule::Rule" in cg.nodes[e["callee"]].locals[0]["s"] and
+                    "Result<" in cg.nodes[e["callee"]].locals[0]["s"]]
+          for e in parses:
+              n2 += 1
+              a = strip(e["args"][0])
+              pos = None
+              found = []
+              mentions(a, lambda t: found.append(t) or False if iters.position(t) is not None else False)
+              if iters.position(a) is not None:
+                  found.append(a)
+              for t in found:
+                  pos = iters.position(t)
+                  if pos is not None:
+                      break
+              if pos is None:
+                  ok2, why2 = False, "the text parsed at line %d (%s) is not an element of the list the reader returned" % (e["line"], show(a)[:50])
+                  continue
+              coll, key = pos
+              src = []
+              mentions(coll, lambda t: src.append(t) or False if (t[0] == "call" and t[1] in fam_paths) else False)
+              if not src:
+                  ok2, why2 = False, "the texts parsed come from %s, not from the reader / splitter of this file" % show(coll)[:60]
+              if key[0] != "step" or key[2] != 0 or mentions(coll, lambda t: t[0] == "call" and t[1].endswith("::rev")) or \
+                      mentions(key[1], lambda t: t[0] == "call" and (t[1].endswith("::rev") or "Rev<" in t[1])):
+                  ok2, why2 = False, "the rule texts are not visited first to last, one by one (%s)" % str(key)[:50]
+              # the parsed rule reaches the knowledge base handed in
+              res = strip(e["result"]) if e.get("result") is not None else None
+              okp = [x for x in p.decisions if strip(x[0]) == ("variant", res) and x[1] == "Ok"]
+              if okp:
+                  ins = [x for x in p.events if x["k"] == "call" and x is not e and any(strip(y) == kbp for y in x["args"]) and
+                         any(mentions(y, lambda t: t == res) for y in x["args"]) and p.events.index(x) > p.events.index(e)]
+                  if len(ins) != 1:
+                      ok2, why2 = False, "a rule parsed at line %d is added to the knowledge base %d time(s) on some path" % (e["line"], len(ins))
+      ctx.ob("R2", "loader-wiring(%s)" % L.npath, ok2 and n2 > 0, ctx.where(L), why2 or
+             "every rule text, first to last, goes to the rule parser and its rule into the given knowledge base (%d)" % n2)
     # ---- R3 reader wiring --------------------------------------------------------------------------------------------------
-    readers = [b for b in fam if b.path != L.path and b.mir["arg_count"] == 1 and b.locals[1]["s"] == "&str" and
-               "Result<std::vec::Vec<std::string::String>" in b.locals[0]["s"].replace(" ", "") and
-               any((t["callee"].get("path") or "").endswith("::lines") or "Lines<" in (t["callee"].get("path_args") or "") or
-                   "Lines<" in (t["callee"].get("path") or "") for i, t in list(b.calls()) + [x for h in prog.private_callees(b) for x in h.calls()])]
-    if not readers:
-        ctx.missing("R3", "line reader (fn(&str) -> Result<Vec<String>, _> iterating over lines)")
-        return
-    Rd = readers[0]
-    ok3, why3, n3 = True, "", 0
-    for p in paths_of.get(Rd.path, []):
-        if p.end != "return":
+    # a reader: a function of the family that iterates over lines, appends to an accumulator and hands it to the splitter
+    n_readers = 0
+    small = inline.helpers(prog, max_blocks=12)      # `line_reader()`-sized helpers only: the scanners themselves stay calls
+    for Rd in fam:
+        if not any("::lines" in (t["callee"].get("path") or "") or "Lines<" in (t["callee"].get("path_args") or "") or
+                   "Lines<" in (t["callee"].get("path") or "") for i, t in list(Rd.calls()) + [x for h in prog.private_callees(Rd) for x in h.calls()]):
             continue
-        r = strip(p.ret)
-        # the text handed to the splitter
-        if not (r[0] == "call" and r[1] in fam_paths):
+        try:
+            rps = Walker(Rd, max_visits=2, max_paths=200000, inline=small).paths()
+        except TooManyPaths:
+            ctx.ob("R3", "reader-wiring(%s)" % Rd.npath, False, ctx.where(Rd), "too many paths")
             continue
-        acc = strip(r[2][0]) if r[2] else None
-        while acc is not None and acc[0] == "call" and acc[1].split("::")[-1] in ("deref", "as_str", "as_ref", "borrow") and acc[2]:
-            acc = strip(acc[2][0])
-        apps = [e for e in p.events if e["k"] == "call" and e["callee"].split("::")[-1] in ("add_assign", "push_str") and
-                e["args"] and strip(e["args"][0]) == acc]
-        items = []
-        for e in apps:
-            n3 += 1
-            src = strip(e["args"][1])
-            nx = []
-            mentions(src, lambda t: nx.append(t) or False if (t[0] == "call" and t[1].endswith("::next")) else False)
-            if not nx:
-                ok3, why3 = False, "what is appended at line %d (%s) does not come from a line of the file" % (e["line"], show(src)[:50])
+        ctx.stats["paths_walked"] += len(rps)
+        ok3, why3, n3 = True, "", 0
+        for p in rps:
+            # the text handed to the splitter: a family call one of whose arguments is the accumulator of `+=` / push_str
+            accs = {}
+            for e in p.events:
+                if e["k"] == "call" and not e.get("inlined") and e["callee"].split("::")[-1] in ("add_assign", "push_str") and e["args"]:
+                    accs.setdefault(strip(e["args"][0]), []).append(e)
+            if not accs:
                 continue
-            items.append(nx[-1])
-        if len(items) != len(set(items)):
-            ok3, why3 = False, "a line is appended more than once to the text handed to the splitter"
-        tags = [t[3][1] for t in items if len(t) > 3 and isinstance(t[3], tuple)]
-        if tags != sorted(tags):
-            ok3, why3 = False, "lines are not appended in the order in which they were read"
-        if any(mentions(t, lambda y: y[0] == "call" and (y[1].endswith("::rev") or "Rev<" in y[1])) for t in items):
-            ok3, why3 = False, "the lines are read backwards"
-    ctx.ob("R3", "reader-wiring(%s)" % Rd.npath, ok3 and n3 > 0, ctx.where(Rd), why3 or
-           "every kept line is appended once, in reading order, to the text handed to the splitter (%d appends)" % n3)
+            for acc, apps in accs.items():
+                def unwrap(x):
+                    x = strip(x)
+                    while isinstance(x, tuple) and x and x[0] == "call" and x[1].split("::")[-1] in ("deref", "as_str", "as_ref", "borrow") and x[2]:
+                        x = strip(x[2][0])
+                    return x
+                handed = [e for e in p.events if e["k"] == "call" and not e.get("inlined") and e["callee"] in fam_paths and
+                          any(unwrap(a_) == acc for a_ in e["args"])]
+                if not handed:
+                    continue
+                rloops = BodyCfg(Rd).loops()
+                line_loops = [bl for h, bl in rloops.items() if any(x["k"] == "call" and x["callee"].endswith("::next") and x["bb"] in bl and
+                                                                    "Lines" in x["callee"] for x in p.events)]
+                if not line_loops:
+                    line_loops = [bl for h, bl in rloops.items() if any(x["bb"] in bl for x in apps)]
+                if any(e["bb"] in bl for e in handed for bl in line_loops):
+                    ok3, why3 = False, ("the text is handed to the splitter (line %d) inside the loop over the lines, before all lines were "
+                                        "appended: a rule that continues on a later line is cut in two" % handed[0]["line"])
+                items = []
+                for e in apps:
+                    n3 += 1
+                    src = strip(e["args"][1])
+                    nx = []
+                    mentions(src, lambda t: nx.append(t) or False if (t[0] == "call" and t[1].endswith("::next")) else False)
+                    if not nx:
+                        ok3, why3 = False, "what is appended at line %d (%s) does not come from a line being read" % (e["line"], show(src)[:50])
+                        continue
+                    items.append(nx[-1])
+                if len(items) != len(set(items)):
+                    ok3, why3 = False, "a line is appended more than once to the text handed to the splitter"
+                tags = [t[3][1] for t in items if len(t) > 3 and isinstance(t[3], tuple)]
+                if tags != sorted(tags):
+                    ok3, why3 = False, "lines are not appended in the order in which they were read"
+                if any(mentions(t, lambda y: y[0] == "call" and (y[1].endswith("::rev") or "Rev<" in y[1])) for t in items):
+                    ok3, why3 = False, "the lines are read backwards"
+        if n3 == 0:
+            continue
+        n_readers += 1
+        ctx.ob("R3", "reader-wiring(%s)" % Rd.npath, ok3, ctx.where(Rd), why3 or
+               "every kept line is appended once, in reading order, to the text handed to the splitter (%d appends)" % n3)
+    ctx.floor("R3", n_readers, 1, "functions that read lines, join them and hand the text to the splitter")
+    # ---- R4: the splitter does not drop what is left over ------------------------------------------------------------------
+    # a splitter: a family function that collects characters into a text, pushes that text into its result at a separator
+    # and starts again.  Before it returns Ok it must look whether the text still being collected is empty.
+    n_split = 0
+    for Sp in fam:
+        if "Result<std::vec::Vec<std::string::String>" not in Sp.locals[0]["s"].replace(" ", "") or Sp.path in {x.path for x in Ls}:
+            continue
+        sps = paths_of.get(Sp.path)
+        if sps is None:
+            continue
+        loops = BodyCfg(Sp).loops()
+        inloop = set().union(*loops.values()) if loops else set()
+        ok4, why4, n4 = True, "", 0
+        is_splitter = False
+        for p in sps:
+            if p.end != "return":
+                continue
+            r = strip(p.ret)
+            collectors = {strip(e["args"][0]) for e in p.events if e["k"] == "call" and e["callee"].endswith("String::push") and e["bb"] in inloop}
+            pushed = [e for e in p.events if e["k"] == "call" and e["callee"].endswith("Vec::<T, A>::push") and e["bb"] in inloop and
+                      strip(e["args"][1]) in collectors]
+            if not collectors or not any(e["k"] == "call" and e["callee"].endswith("Vec::<T, A>::push") for e in p.events):
+                continue
+            is_splitter = is_splitter or bool(pushed)
+            if not (r[0] == "agg" and r[2] == "Ok"):
+                continue
+            n4 += 1
+            looked = False
+            for e in p.events:
+                if e["k"] != "branch" or e["bb"] in inloop:
+                    continue
+                c = strip(e["cond"])
+                if mentions(c, lambda t: t[0] == "call" and t[1].split("::")[-1] in ("len", "is_empty") and
+                            any(mentions(a_, lambda y: y in collectors) or strip(a_) in collectors for a_ in t[2])):
+                    looked = True
+            if not looked:
+                ok4, why4 = False, ("the splitter returns Ok without looking whether the text it was still collecting is empty: a "
+                                    "last fact or rule without its final period disappears")
+        if not is_splitter:
+            continue
+        n_split += 1
+        ctx.ob("R4", "leftover-is-looked-at(%s)" % Sp.npath, ok4 and n4 > 0, ctx.where(Sp), why4 or
+               "every Ok return follows a test of the emptiness of the text still being collected (%d path(s))" % n4)
+    ctx.floor("R4", n_split, 1, "splitters (collect characters, push the text at a separator, start again)")
